@@ -5,17 +5,12 @@ Import ListNotations.
 Open Scope string_scope.
 Open Scope N_scope.
 
-(* exported functions in which the translator finds a pointer parameter used without a checking macro
-   (known findings F-FFI-RAWSTREAM, F-FFI-OUTNULL, F-FFI-STRARRAY, F-FFI-SILENT; see known_findings.d/C31.json) *)
+(* exported functions in which the translator still finds a pointer parameter used without a checking macro
+   (known finding F-FFI-STRARRAY, known_findings.d/C31.json).  The unguarded stream / count / signer-info pointers
+   and the silent error of c2pa_builder_hash_type (F-FFI-RAWSTREAM, -OUTNULL, -INFONULL, -SILENT) were repaired by
+   fix commit 8b6120a89 and are covered by the theorems below like every other function. *)
 Definition known_unguarded : list string :=
-  [ "c2pa_builder_add_resource";                  (* stream: raw `&mut` of the dereferenced pointer with no deref_mut_or_return *)
-    "c2pa_reader_resource_to_stream";             (* stream: the same *)
-    "c2pa_builder_sign_data_hashed_embeddable";   (* asset: only tested for NULL, then `&mut *asset` *)
-    "c2pa_builder_hash_type";                     (* out_hash_type NULL: returns -1 without setting the last error *)
-    "c2pa_builder_supported_mime_types";          (* count: `*count = ..` with no NULL test *)
-    "c2pa_reader_supported_mime_types";           (* count: the same *)
-    "c2pa_free_string_array";                     (* the array is not tracked: Vec::from_raw_parts on the argument *)
-    "c2pa_signer_from_info" ].                    (* `&C2paSignerInfo` parameter: NULL cannot be tested *)
+  [ "c2pa_free_string_array" ].                   (* the array is not tracked: Vec::from_raw_parts on the argument *)
 
 Definition table_ok : bool :=
   forallb (fun nf => fn_guarded (snd nf) || existsb (String.eqb (fst nf)) known_unguarded) api_table.
@@ -47,6 +42,23 @@ Proof.
   apply (guarded_fn_rejects_bad_handle MAX_CSTRING_LEN f k t args b s); try assumption. eapply api_guarded_except_known; eassumption.
 Qed.
 
+(* optional handle parameters (NULL documented as allowed): any non-NULL pointer that is not a live handle of the
+   type is rejected in the same way *)
+Theorem api_bad_opt_handle_rejected : forall name f k t args b s,
+  In (name, f) api_table -> ~ In name known_unguarded ->
+  nth_error (f_params f) k = Some (PHandleOpt t) ->
+  argn args k <> 0 ->
+  validate (s_reg s) (argn args k) t <> ROk ->
+  exists s' c own,
+    step MAX_CSTRING_LEN s (CApi (f_guards f) args b) = (s', OErr c, map Consumed own) /\
+    c <> CSilent /\ c <> CBody /\ s_next s' = s_next s /\
+    (forall x e, lookup x (s_reg s') = Some e -> lookup x (s_reg s) = Some e) /\
+    (forallb (fun g => negb (is_untrack g)) (f_guards f) = true -> s' = s /\ own = []).
+Proof.
+  intros name f k t args b s IN NK N NZ BAD.
+  apply (guarded_fn_rejects_bad_opt_handle MAX_CSTRING_LEN f k t args b s); try assumption. eapply api_guarded_except_known; eassumption.
+Qed.
+
 Theorem api_no_ub : forall name f args b s s' o ev,
   In (name, f) api_table -> ~ In name known_unguarded ->
   step MAX_CSTRING_LEN s (CApi (f_guards f) args b) = (s', o, ev) -> o <> OUB.
@@ -56,9 +68,9 @@ Proof.
   eapply no_undefined_behaviour; [apply checked_no_undef; eassumption|eassumption].
 Qed.
 
-(* the known class is real in the model: the guard sequence the translator extracts for c2pa_builder_add_resource
-   (deref builder, cstr uri, raw stream) reaches the unvalidated dereference when the stream argument is NULL,
-   freed or foreign; with the macro in place (GDeref) the same call is an error *)
+(* the repaired class, as a statement about the old table: the guard sequence c2pa_builder_add_resource had before
+   fix 8b6120a89 (deref builder, cstr uri, raw stream) reaches the unvalidated dereference when the stream argument
+   is NULL, freed or foreign; with the macro in place (GDeref, today's table) the same call is an error *)
 Definition raw_stream_guards : list guard := [GDeref 0 T_C2paBuilder; GCstr 1; GRaw 2 T_C2paStream].
 Definition fixed_stream_guards : list guard := [GDeref 0 T_C2paBuilder; GCstr 1; GDeref 2 T_C2paStream].
 Definition one_builder : state := St [(500, E T_C2paBuilder 0%nat)] 1%nat.
